@@ -49,6 +49,7 @@ package v2
 //@ func (*Entry).Deserialize(e, buf) (n, err)
 //@   property C01 C04
 //@   nopanic
+//@   allocbound len(buf)
 //@   modifies all(e)
 //@   ensures[short] len(buf) < 7 ==> err != nil
 //@   ensures[errzero] err != nil ==> n == 0
